@@ -114,7 +114,8 @@ impl St {
             St::Poly(s) => {
                 let mut c = s.clone();
                 let _ = c.score();
-                c.shape = LineShape::polygon(if c.shape.items.len() == 4 { 5 } else { 4 }).ok()?;
+                // same name, same number of sides, half the size (a memo keyed on less than the geometry shows here)
+                c.shape = LineShape::from_radial(&c.shape.name.clone(), vec![0.5; c.shape.items.len()]).ok()?;
                 let a = c.score();
                 let fresh: PackedState<LineShape> = serde_json::from_value(serde_json::to_value(&c).ok()?).ok()?;
                 Some((a, fresh.score()))
@@ -122,7 +123,7 @@ impl St {
             St::Mol(s) => {
                 let mut c = s.clone();
                 let _ = c.score();
-                c.shape = if c.shape.items.len() == 1 { MolecularShape2::from_trimer(0.637556, 120., 1.) } else { MolecularShape2::circle() };
+                c.shape = if c.shape.items.len() == 1 { MolecularShape2::from_trimer(0.637556, 120., 1.) } else { MolecularShape2::from_trimer(0.45, 100., 1.15) };
                 let a = c.score();
                 let fresh: PackedState<MolecularShape2> = serde_json::from_value(serde_json::to_value(&c).ok()?).ok()?;
                 Some((a, fresh.score()))
@@ -130,7 +131,7 @@ impl St {
             St::Lj(s) => {
                 let mut c = s.clone();
                 let _ = c.score();
-                c.shape = if c.shape.items.len() == 1 { LJShape2::from_trimer(0.637556, 120., 1.) } else { LJShape2::circle() };
+                c.shape = if c.shape.items.len() == 1 { LJShape2::from_trimer(0.637556, 120., 1.) } else { LJShape2::from_trimer(0.45, 100., 1.15) };
                 let a = c.score();
                 let fresh: PotentialState<LJShape2> = serde_json::from_value(serde_json::to_value(&c).ok()?).ok()?;
                 Some((a, fresh.score()))
@@ -249,6 +250,18 @@ fn inject<S: serde::Serialize + serde::de::DeserializeOwned>(st: &S, p: &Option<
     serde_json::from_value(v).expect("state from JSON")
 }
 
+/// family=Hexagonal|Tetragonal|Orthorhombic|Monoclinic : the crystal family of the cell as a file may state it
+fn with_family<S: serde::Serialize + serde::de::DeserializeOwned>(st: S, spec: &Spec) -> S {
+    match spec.kv.get("family") {
+        None => st,
+        Some(f) => {
+            let mut v = serde_json::to_value(&st).unwrap();
+            v["cell"]["family"] = json!(f);
+            serde_json::from_value(v).expect("state with another crystal family")
+        }
+    }
+}
+
 fn lj_inject(st: &PotentialState<LJShape2>, spec: &Spec) -> PotentialState<LJShape2> {
     if !(spec.kv.contains_key("cuts") || spec.kv.contains_key("epss") || spec.kv.contains_key("sigs")) {
         return st.clone();
@@ -272,22 +285,22 @@ pub fn build(spec: &Spec) -> St {
     match (parts[0], lj) {
         ("polygon", false) => {
             let sh = LineShape::polygon(parts[1].parse().unwrap()).expect("polygon");
-            St::Poly(optimised(inject(&PackedState::from_group(sh, &g).unwrap(), &p), spec))
+            St::Poly(optimised(with_family(inject(&PackedState::from_group(sh, &g).unwrap(), &p), spec), spec))
         }
         ("radial", false) => {
             let r: Vec<f64> = parts[1..].iter().map(|s| parse_f(s)).collect();
             let sh = LineShape::from_radial("Radial", r).expect("radial");
-            St::Poly(optimised(inject(&PackedState::from_group(sh, &g).unwrap(), &p), spec))
+            St::Poly(optimised(with_family(inject(&PackedState::from_group(sh, &g).unwrap(), &p), spec), spec))
         }
-        ("circle", false) => St::Mol(optimised(inject(&PackedState::from_group(MolecularShape2::circle(), &g).unwrap(), &p), spec)),
+        ("circle", false) => St::Mol(optimised(with_family(inject(&PackedState::from_group(MolecularShape2::circle(), &g).unwrap(), &p), spec), spec)),
         ("trimer", false) => {
             let sh = MolecularShape2::from_trimer(parse_f(parts[1]), parse_f(parts[2]), parse_f(parts[3]));
-            St::Mol(optimised(inject(&PackedState::from_group(sh, &g).unwrap(), &p), spec))
+            St::Mol(optimised(with_family(inject(&PackedState::from_group(sh, &g).unwrap(), &p), spec), spec))
         }
-        ("circle", true) => St::Lj(optimised(lj_inject(&inject(&PotentialState::from_group(LJShape2::circle(), &g).unwrap(), &p), spec), spec)),
+        ("circle", true) => St::Lj(optimised(with_family(lj_inject(&inject(&PotentialState::from_group(LJShape2::circle(), &g).unwrap(), &p), spec), spec), spec)),
         ("trimer", true) => {
             let sh = LJShape2::from_trimer(parse_f(parts[1]), parse_f(parts[2]), parse_f(parts[3]));
-            St::Lj(optimised(lj_inject(&inject(&PotentialState::from_group(sh, &g).unwrap(), &p), spec), spec))
+            St::Lj(optimised(with_family(lj_inject(&inject(&PotentialState::from_group(sh, &g).unwrap(), &p), spec), spec), spec))
         }
         _ => panic!("unsupported shape/kind {}", spec.text),
     }
@@ -584,7 +597,7 @@ pub fn run_state_case(spec: &Spec, out: &mut dyn Write) -> GeomOut {
     {
         let fam = js["cell"]["family"].as_str().unwrap_or("?").to_string();
         let want = if group == "p1" || group == "p2" { "Monoclinic" } else { "Orthorhombic" };
-        if fam != want {
+        if fam != want && !spec.kv.contains_key("family") {
             add(&mut f, "C04,C08,C10", format!("the cell of a {} structure has crystal family {}, the group's family is {}", group, fam, want));
         }
         if want == "Orthorhombic" && spec.kv.contains_key("opt") && angle != std::f64::consts::FRAC_PI_2 {
@@ -1491,8 +1504,54 @@ pub fn run_order_case(spec: &Spec, out: &mut dyn Write) -> GeomOut {
     }
 }
 
+/// mode=ljm (C13): the energy of two DIFFERENT Lennard-Jones molecules, both ways, against the sum over their
+/// particle pairs.  spec: a=circle|trimer:r:ang:d b=... t1=phi:x:y:mirror t2=...
+pub fn run_ljm_case(spec: &Spec, out: &mut dyn Write) -> GeomOut {
+    use packing::traits::Potential as _;
+    let mut f: Vec<Finding> = vec![];
+    let mk = |s: &str| -> LJShape2 {
+        let p: Vec<&str> = s.split(':').collect();
+        if p[0] == "circle" { LJShape2::circle() } else { LJShape2::from_trimer(parse_f(p[1]), parse_f(p[2]), parse_f(p[3])) }
+    };
+    let parse_t = |s: &str| -> M9 {
+        let v: Vec<f64> = s.split(':').map(parse_f).collect();
+        let (c, sn) = (v[0].cos(), v[0].sin());
+        if v.len() > 3 && v[3] != 0. { [-c, sn, v[1], sn, c, v[2], 0., 0., 1.] } else { [c, -sn, v[1], sn, c, v[2], 0., 0., 1.] }
+    };
+    let a = mk(spec.get("a")).transform(&tf_of(&parse_t(spec.get("t1"))));
+    let b = mk(spec.get("b")).transform(&tf_of(&parse_t(spec.get("t2"))));
+    let (eab, eba) = (a.energy(&b), b.energy(&a));
+    // the pair sums, with the particle energy of the crate itself
+    let pair = |x: &LJShape2, y: &LJShape2| -> (f64, f64) {
+        let (mut s, mut m) = (0., 0.);
+        for p in x.items.iter() {
+            for q in y.items.iter() {
+                let e = p.energy(q);
+                s += e;
+                m += e.abs();
+            }
+        }
+        (s, m)
+    };
+    for (name, got, (want, mag)) in [("energy(a,b)", eab, pair(&a, &b)), ("energy(b,a)", eba, pair(&b, &a))].iter() {
+        if got.is_finite() && want.is_finite() && (got - want).abs() > 1e-9 * (1. + mag) {
+            add(&mut f, "C13,C03", format!("{} of two molecules is {:?}, the sum over their particle pairs is {:?}", name, got, want));
+        }
+    }
+    writeln!(out, "K {}", spec.text).unwrap();
+    writeln!(out, "W {} {} {} {}", a.items.len(), b.items.len(), hex(eab), hex(eba)).unwrap();
+    for (tag, sh) in [("A", &a), ("B", &b)].iter() {
+        for i in sh.items.iter() {
+            writeln!(out, "{} {} {} {} {} {}", tag, hex(i.position.x), hex(i.position.y), hex(i.sigma), hex(i.epsilon), hexo(i.cutoff)).unwrap();
+        }
+    }
+    writeln!(out, "E").unwrap();
+    GeomOut { findings: f, meta: format!("ljm=true pair=true na={} nb={}", a.items.len(), b.items.len()) }
+}
+
 pub fn run_case(spec: &Spec, out: &mut dyn Write) -> GeomOut {
     match spec.get_or("mode", "state") {
+        "ljm" => run_ljm_case(spec, out),
         "order" => run_order_case(spec, out),
         "pair" => run_pair_case(spec, out),
         "lj2" => run_lj2_case(spec, out),
